@@ -1,7 +1,7 @@
 (* Checks.v — executable statements of C02, C04, C10 on compiled trees (the
    implementation's or the model's), used by the case files.  Definitions only. *)
 From Coq Require Import List String Ascii QArith ZArith Bool.
-From Bq Require Import Expr StdSem RepModel Routine Compile Preprocess Compare CompileTop DenSrc.
+From Bq Require Import Expr StdSem RepModel Routine Compile Preprocess Compare CompileTop DenSrc Scoped.
 Import ListNotations.
 Open Scope string_scope.
 
@@ -114,8 +114,16 @@ Definition check_wires (r : routine) (impl : impl_result) (inexact : bool) (pts 
    | IErr _ => []
    end).
 
+(* the hypothesis of the whole-tree closure theorem is met: whenever the compile model answers, so does the
+   scoped one (compiled_tree_closed then says both give the same tree and that it is closed) *)
+Definition scoped_ok (r : routine) : list nat :=
+  match compile_routine r with
+  | Ok _ => match compile_scoped r with Ok _ => [0%nat] | _ => [1%nat] end
+  | _ => []
+  end.
+
 Definition check_closed (r : routine) (impl : impl_result) (inexact : bool) (pts : list (list (string * Q))) : list nat * list nat :=
-  (tie_compile r impl inexact pts,
+  ((tie_compile r impl inexact pts ++ scoped_ok r)%list,
    match impl with
    | IOk t => closed_ok (S (ct_height t)) (ct_src_params t) t
    | IErr _ => []
